@@ -776,8 +776,17 @@ func (f *transformationCallable) updateEntries(item reflect.Value) error {
 		return newEvalError(ErrIllegalUpdate, f.updates, nil)
 	}
 
-	// The update object may be wrapped in an interface (e.g.
-	// when it is an item of an array).
+	// The update object can refer to the object being updated,
+	// e.g. |$|{"self": $}|. Inserting that reference would make
+	// the result cyclic (and impossible to encode as JSON), so
+	// insert a copy of the values as they were when the update
+	// clause was evaluated.
+	updates, err = f.clone(updates)
+	if err != nil {
+		return newEvalError(ErrClone, nil, nil)
+	}
+
+	// The copy is wrapped in an interface.
 	updates = jtypes.Resolve(updates)
 
 	for _, key := range updates.MapKeys() {
